@@ -12,7 +12,9 @@ import (
 	"testing/iotest"
 	"unicode/utf8"
 
+	"github.com/sqlc-dev/doubleclick/lexer"
 	"github.com/sqlc-dev/doubleclick/parser"
+	"github.com/sqlc-dev/doubleclick/token"
 )
 
 // C14 — parsing is independent of how the io.Reader delivers the bytes.
@@ -21,6 +23,9 @@ import (
 //          bufio.Reader over a scripted reader, op by op. A difference is a model/implementation disagreement
 //          (obligation "bufio-model-corr"), not a property violation.
 // part (b) search on the real code: parser.Parse + parser.Explain + error over many readers of the same bytes.
+// part (c) correspondence: the reader-interface lexer model over the bufio model over a scripted reader
+//          (DC.Model.LexerRd, driver op lexbufio; theorem DC.Props.C14Lex.lex_chunking) against the real
+//          lexer.Tokenize over the same scripted reader, token for token (obligation "lexbufio-model-corr").
 
 func init() {
 	props["C14"] = runC14
@@ -29,6 +34,7 @@ func init() {
 func runC14(w *W) {
 	bufioCorr(w)
 	chunkingSearch(w)
+	c14LexOverBufio(w)
 }
 
 // ---------------------------------------------------------------- scripted reader (shared with C15)
@@ -733,5 +739,149 @@ func chunkingSearch(w *W) {
 			in = append(in[:p:p], append([]byte(ins), in[p:]...)...)
 		}
 		evalInput(idx, in, "mutant")
+	}
+}
+
+// ---------------------------------------------------------------- (c) lexer over bufio over a scripted reader
+
+// lexCanonReader renders lexer.Tokenize over rd as `kind,hexval,off,line,col,q;…` (the format of the model's
+// `lex` and `lexbufio` ops); limit bounds the number of tokens (a lexer that does not reach EOF).
+func lexCanonReader(rd io.Reader, limit int) (out string) {
+	defer func() {
+		if r := recover(); r != nil {
+			out = "panic"
+		}
+	}()
+	l := lexer.New(rd)
+	var sb strings.Builder
+	for i := 0; ; i++ {
+		it := l.NextToken()
+		if i > 0 {
+			sb.WriteByte(';')
+		}
+		q := 0
+		if it.Quoted {
+			q = 1
+		}
+		fmt.Fprintf(&sb, "%d,%s,%d,%d,%d,%d", int(it.Token), hexOrDash([]byte(it.Value)), it.Pos.Offset, it.Pos.Line, it.Pos.Column, q)
+		if it.Token == token.EOF {
+			return sb.String()
+		}
+		if i > limit {
+			return "overflow"
+		}
+	}
+}
+
+// c14LexOverBufio: random inputs x random chunkings; the model's `lexbufio <script>` (the interface lexer
+// DC.Model.LexerRd run on the bufio model on the scripted reader) against lexer.Tokenize on the real bufio.Reader on
+// the same scripted reader. Clean scripts are the hypothesis of lex_chunking; a share of the scripts carries reader
+// errors, stalls (100 empty reads) and an early io.EOF, where model and code must agree as well.
+func c14LexOverBufio(w *W) {
+	stmts, _ := loadCorpus()
+	n := w.pickN(6000, 120000)
+	for k := 0; k < n; k++ {
+		idx, mine := w.Case()
+		if !mine {
+			continue
+		}
+		r := NewRng(w.Seed, uint64(idx), 18)
+		// the bytes
+		var in []byte
+		kind := ""
+		switch r.Intn(8) {
+		case 0, 1, 2:
+			kind = "stream"
+			in = randStreamBytes(r, r.Intn(120))
+		case 3:
+			kind = "corpus"
+			in = []byte(stmts[r.Intn(len(stmts))].Text)
+			if len(in) > 700 {
+				in = in[:700]
+			}
+		case 4:
+			kind = "grammar"
+			g := &Gen{r: r}
+			in = []byte(g.statement(3))
+			if len(in) > 700 {
+				in = in[:700]
+			}
+		case 5:
+			kind = "mutant"
+			base := []byte(stmts[r.Intn(len(stmts))].Text)
+			if len(base) > 400 {
+				base = base[:400]
+			}
+			in = mutateBytes(r, base)
+		case 6:
+			// look-ahead material next to the 4096-byte buffer boundary
+			kind = "boundary"
+			pad := 4096 - 24 + r.Intn(40)
+			in = append(bytes.Repeat([]byte{' '}, pad), pick(r, []string{"$tag$ x $tag$ y", "$a$b", "$$q$$ 1", "t.0371_x .5e3", "'é''é' -- c", "/* /* € */ */ <=> 1_000.5e-3", "x'4142' b'0101' 0x1Fp3", "`a``b` \"c\"\"d\" @@v"})...)
+			in = append(in, randStreamBytes(r, r.Intn(30))...)
+		default:
+			kind = "lookahead"
+			for i, m := 0, 1+r.Intn(6); i < m; i++ {
+				in = append(in, pick(r, []string{"$tag$ body $ta$ $tag$ ", "$a$", "$$x$$", "$é$1$é$", "$_1$ $_1$", "db.0371_x ", ".1e+5 ", "1.e5 ", "0b0101 0o17 0xFFp-2 ", "1_000_ ", "'a\\x4", "'\\xZ' ", "\u2018q\u2019 ", "\u201cq\u201d ", "\u2212 c\n", "{p:UInt8} ", "a<=>b ", "x'4", "b'012' ", "é", "\xf0\x9f\x98", "😀", "-- c;;\n", "# h\n", "/* /* */", "@@1a @ ", "`a\\`b` "})...)
+			}
+		}
+		// the chunking
+		spec := &scriptSpec{}
+		faulty := r.Chance(1, 8)
+		maxChunk := pick(r, []int{1, 1, 2, 3, 4, 7, 7, 64, 5000})
+		pos := 0
+		for pos < len(in) {
+			l := 1 + r.Intn(maxChunk)
+			if pos+l > len(in) {
+				l = len(in) - pos
+			}
+			code := "n"
+			if faulty && r.Chance(1, 10) {
+				code = pick(r, []string{"e", "x1", "x2", "g", "f"})
+			}
+			if pos+l == len(in) && r.Chance(1, 2) && !faulty {
+				code = "e" // the last bytes together with io.EOF
+			}
+			spec.add(in[pos:pos+l], code, 1)
+			pos += l
+			if r.Chance(1, 6) {
+				cnt := 1 + r.Intn(3)
+				if r.Chance(1, 10) {
+					cnt = 99
+				}
+				if faulty && r.Chance(1, 4) {
+					cnt = 100 + r.Intn(3)
+				}
+				spec.add(nil, "n", cnt)
+			}
+		}
+		if r.Chance(1, 4) && !faulty {
+			spec.add(nil, "e", 1)
+		}
+		req := "lexbufio " + spec.String()
+		w.Begin(idx, in, "lexbufio:"+kind)
+		got := w.Model().Ask(req)
+		want := lexCanonReader(spec.reader(), len(in)+8)
+		w.stats.Evaluations++
+		w.Count("corr:lexbufio-scripts")
+		w.Count("corr:lexbufio-" + kind)
+		if faulty {
+			w.Count("corr:lexbufio-faulty-scripts")
+		} else {
+			w.Count("corr:lexbufio-clean-scripts")
+			// on a clean script the answer is also that of the lexer on the plain bytes (C14 at token level)
+			if plain := lexCanon(in); plain != want {
+				w.Count("chunking-difference")
+				w.Report(Finding{Kind: "chunking", Key: "chunking@tokens", Input: fmt.Sprintf("%q", trunc(string(in), 300)), InputHex: hexs(in),
+					Detail: "lexer.Tokenize via bytes.Reader vs script " + trunc(spec.String(), 400) + " differ:\nplain:   " + trunc(plain, 600) + "\nchunked: " + trunc(want, 600)})
+			}
+		}
+		w.stats.Counters["corr:lexbufio-tokens"] += strings.Count(want, ";") + 1
+		if got != want {
+			w.corrDisagree("lexbufio-model-corr (DC.Model.LexerRd over DC.Model.Bufio vs lexer.Tokenize over bufio.Reader; theorem C14Lex.lex_chunking)", "lexbufio-model-corr", req, got, want)
+		}
+		if w.stats.Counters["corr:lexbufio-scripts"]%2000 == 1 {
+			w.Sample(fmt.Sprintf("lexbufio %q in %d events -> %s", trunc(string(in), 50), len(spec.evs), trunc(want, 100)))
+		}
 	}
 }
